@@ -1314,7 +1314,7 @@ impl GroupedHashAggregateStream {
                 .with_spill_manager(self.spill_state.spill_manager.clone())
                 .with_sorted_spill_files(std::mem::take(&mut self.spill_state.spills))
                 .with_expressions(&self.spill_state.spill_expr)
-                .with_metrics(self.baseline_metrics.clone())
+                .with_metrics(self.baseline_metrics.intermediate())
                 .with_batch_size(self.batch_size)
                 .with_reservation(self.reservation.new_empty())
                 .build()?;
